@@ -497,6 +497,7 @@ extern int total_queries;
     sqlite3_stmt *_stmt = (_s); \
     cif_value_tp *_value = (_val); \
     int _col_ofs = (_ofs); \
+    int _gvp_result; \
     const void *_blob; \
     _value->kind = (cif_kind_tp) sqlite3_column_int(_stmt, _col_ofs); \
     switch (_value->kind) { \
@@ -524,11 +525,15 @@ extern int total_queries;
         case CIF_LIST_KIND: \
         case CIF_TABLE_KIND: \
             _blob = (const void *) sqlite3_column_blob(_stmt, _col_ofs + 2); \
-            if ((_blob != NULL) && (cif_value_deserialize( \
-                    _blob, (size_t) sqlite3_column_bytes(_stmt, _col_ofs + 2), _value) == CIF_OK)) { \
+            if (_blob == NULL) { \
+                FAIL(errlabel, CIF_INTERNAL_ERROR); \
+            } \
+            /* a failure to deserialize is reported with its own code, as it may reflect memory exhaustion */ \
+            _gvp_result = cif_value_deserialize(_blob, (size_t) sqlite3_column_bytes(_stmt, _col_ofs + 2), _value); \
+            if (_gvp_result == CIF_OK) { \
                 break; \
             } \
-            FAIL(errlabel, CIF_INTERNAL_ERROR); \
+            FAIL(errlabel, _gvp_result); \
         case CIF_UNK_KIND: \
         case CIF_NA_KIND: \
             break; \
